@@ -1,64 +1,38 @@
 (* C18 — a model's result depends only on its own arguments; caller data is never mutated.
    ONLY property theorems (closed by [exact]), their assumptions, and non-vacuity examples.
    Model: Effects.v — the caller's shared argument objects as a heap and, per exported class, a hand-written EFFECT
-   SUMMARY of constructor + solve() (how optimization_options is held: copy / read-only alias / `x or {}` alias that is
-   written; every other parameter is copied, deep-copied or only read).  Thin tie: what relates the summaries to /repo is
-   the history correspondence harness/engines/c18.py (deep snapshots before/after every step). *)
+   SUMMARY of constructor + solve() of the CURRENT code (how optimization_options is held: copy / read-only alias; every
+   other parameter is copied, deep-copied or only read).  [old_...] is the summary of the code before the repair 5ed9792
+   (`optimization_options or {}` aliased and written), kept for the refutation theorems.  Thin tie: what relates the
+   summaries to /repo is the history correspondence harness/engines/c18.py (deep snapshots before/after every step). *)
 From Coq Require Import List Bool Arith.
 Import ListNotations.
 From FP Require Import Validate Effects EffectsProofs.
 
-(* Full statement: no operation of any class changes the caller's heap. *)
-Definition C18_full_statement : Prop := forall h o, step h o = h.
+(* Full statement: no operation of any class, with any argument vector, changes the caller's heap; and after an
+   arbitrary history the next model is the one built from the initial heap. *)
+Theorem C18_frame : forall h o, step h o = h.
+Proof. exact frame. Qed.
+Print Assumptions C18_frame.
+Theorem C18_frame_histories : forall ops h, run ops h = h.
+Proof. exact run_frame. Qed.
+Print Assumptions C18_frame_histories.
+Theorem C18_history_independent : forall ops h o, model_of (run ops h) o = model_of h o.
+Proof. exact history_independent. Qed.
+Print Assumptions C18_history_independent.
 
-(* proved part 1: the classes that copy (or only read) their optimization_options never change the heap *)
-Theorem C18_frame_partial : forall h o, frame_class (o_cls o) = true -> step h o = h.
-Proof. exact frame_of_class. Qed.
-Print Assumptions C18_frame_partial.
-(* proved part 2: the remaining classes do not either when optimization_options is omitted or empty *)
-Theorem C18_frame_omitted_or_empty_partial : forall h o, o_pass_opts o = false \/ h_opts h = [] -> step h o = h.
-Proof. exact frame_omitted_or_empty. Qed.
-Print Assumptions C18_frame_omitted_or_empty_partial.
-(* the faithful summary violates the full statement (DESIGN §6 #16): `optimization_options or {}` aliases a
-   non-empty caller dict and writes "trusted_edges_for_safety", "allow_empty_paths", ... into it *)
-Theorem C18_frame_refuted : forall c, opts_hold c = AliasIfNonEmpty \/ opts_hold c = AliasForward ->
-  exists h o, o_cls o = c /\ step h o <> h.
-Proof. exact frame_refuted_all_aliasing. Qed.
-Print Assumptions C18_frame_refuted.
-Theorem C18_full_statement_refuted : ~ C18_full_statement.
-Proof. exact full_statement_refuted18. Qed.
-Print Assumptions C18_full_statement_refuted.
-
-(* whatever the history, only optimization_options can differ afterwards; graph, solver options, constraint and ignore
-   lists, additional starts/ends and the mutable default-argument objects keep their values, and no caller key is lost *)
-Theorem C18_only_optimization_options_is_touched : forall ops h,
-  h_graph (run ops h) = h_graph h /\ h_sopts (run ops h) = h_sopts h /\ h_cons (run ops h) = h_cons h /\
-  h_ign (run ops h) = h_ign h /\ h_starts (run ops h) = h_starts h /\ h_ends (run ops h) = h_ends h /\
-  h_defaults (run ops h) = h_defaults h.
+(* independent of the particular summary (old or new): only optimization_options could ever be touched, and no caller key
+   is ever removed — graph, solver options, constraint / ignore lists, starts/ends and default objects keep their values *)
+Theorem C18_only_optimization_options_can_be_touched : forall hold_of ops h,
+  let h' := run_gen hold_of ops h in
+  h_graph h' = h_graph h /\ h_sopts h' = h_sopts h /\ h_cons h' = h_cons h /\
+  h_ign h' = h_ign h /\ h_starts h' = h_starts h /\ h_ends h' = h_ends h /\ h_defaults h' = h_defaults h.
 Proof. exact run_only_opts. Qed.
-Print Assumptions C18_only_optimization_options_is_touched.
-Theorem C18_caller_keys_survive : forall ops h k, has_key k (h_opts h) = true -> has_key k (h_opts (run ops h)) = true.
+Print Assumptions C18_only_optimization_options_can_be_touched.
+Theorem C18_caller_keys_survive : forall hold_of ops h k,
+  has_key k (h_opts h) = true -> has_key k (h_opts (run_gen hold_of ops h)) = true.
 Proof. exact run_keeps_keys. Qed.
 Print Assumptions C18_caller_keys_survive.
-
-(* history independence, by induction over arbitrary operation lists: after any history of heap-preserving operations
-   the model constructed next is the model constructed from the initial heap *)
-Theorem C18_history_independent_partial : forall ops h o,
-  Forall (fun o' => quiet h o' = true) ops -> model_of (run ops h) o = model_of h o.
-Proof. exact history_independent. Qed.
-Print Assumptions C18_history_independent_partial.
-Theorem C18_history_independent_frame_classes : forall ops h o,
-  Forall (fun o' => frame_class (o_cls o') = true) ops -> model_of (run ops h) o = model_of h o.
-Proof. exact history_independent_frame_classes. Qed.
-Print Assumptions C18_history_independent_frame_classes.
-Theorem C18_history_independent_refuted : exists ops h o, model_of (run ops h) o <> model_of h o.
-Proof. exact history_independent_refuted. Qed.
-Print Assumptions C18_history_independent_refuted.
-
-(* constructing the same model again writes nothing more *)
-Theorem C18_step_idempotent : forall h o, step (step h o) o = step h o.
-Proof. exact step_idempotent. Qed.
-Print Assumptions C18_step_idempotent.
 
 (* repeated getter calls return equal results *)
 Theorem C18_idempotent_getters : forall m,
@@ -67,13 +41,27 @@ Theorem C18_idempotent_getters : forall m,
 Proof. exact idempotent_getters. Qed.
 Print Assumptions C18_idempotent_getters.
 
-(* non-vacuity: a frame class leaves a non-empty dict alone, an aliasing class adds exactly its keys *)
+(* old behaviour (DESIGN §6 #16, repaired by 5ed9792): the `x or {}` classes wrote into a non-empty caller dict, and a
+   polluted dict changed what a later model saw; what held then was history independence for heap-preserving histories *)
+Theorem C18_old_frame_refuted : forall c, old_opts_hold c = AliasIfNonEmpty \/ old_opts_hold c = AliasForward ->
+  exists h o, o_cls o = c /\ old_step h o <> h.
+Proof. exact old_frame_refuted. Qed.
+Print Assumptions C18_old_frame_refuted.
+Theorem C18_old_history_independent_refuted : exists ops h o, model_of (old_run ops h) o <> model_of h o.
+Proof. exact old_history_independent_refuted. Qed.
+Print Assumptions C18_old_history_independent_refuted.
+Theorem C18_old_history_independent_partial : forall ops h o,
+  Forall (fun o' => quiet_gen old_opts_hold h o' = true) ops -> model_of (old_run ops h) o = model_of h o.
+Proof. exact old_history_independent_partial. Qed.
+Print Assumptions C18_old_history_independent_partial.
+
+(* non-vacuity: on a heap with a non-empty dict the current summary of every class leaves it alone, the old one did not *)
 Example C18_nonvacuous :
-  step ex_heap (mk_op CkFlowDecomp true false false true) = ex_heap /\
-  h_opts (step ex_heap (mk_op CkLeastAbsErrors true false false true)) = [KUser 0; KTrusted] /\
-  h_opts (step ex_heap (mk_op CkMinPathError true true false true)) =
+  step ex_heap (mk_op CkLeastAbsErrors true false false true) = ex_heap /\
+  step ex_heap (mk_op CMinFlowDecompCycles true false false true) = ex_heap /\
+  h_opts (old_step ex_heap (mk_op CkLeastAbsErrors true false false true)) = [KUser 0; KTrusted] /\
+  h_opts (old_step ex_heap (mk_op CkMinPathError true true false true)) =
     [KUser 0; KAllowEmpty; KSafePaths; KSafeSeq; KSafeZero; KSubAsSafe; KSafetyAsSub; KTrusted] /\
-  h_opts (step ex_heap (mk_op CMinFlowDecompCycles true false false false)) = [KUser 0] /\
-  h_opts (step ex_heap (mk_op CMinFlowDecompCycles true false false true)) = [KUser 0; KTrusted] /\
-  quiet ex_heap (mk_op CkLeastAbsErrors false false false true) = true.
+  h_opts (old_step ex_heap (mk_op CMinFlowDecompCycles true false false true)) = [KUser 0; KTrusted] /\
+  old_step ex_heap (mk_op CkFlowDecomp true false false true) = ex_heap.
 Proof. vm_compute. repeat split; reflexivity. Qed.
